@@ -440,6 +440,26 @@ fn oracle_file(spec: &str, queries: &str, data: &[u8], ann: &str) -> V {
                 (Ok(_), false) => return Err(format!("C03: section {} range does not fit the file but data was returned", i)),
                 (Err(e), true) => return Err(format!("C03: section {} range fits but error {}", i, show_err(e))),
             }
+            // C03: string-table entries are the NUL-terminated runs of the section's own bytes
+            if sh.sh_type == abi::SHT_STRTAB && !compressed && fits {
+                if let Ok(t) = f.section_data_as_strtab(&sh) {
+                    let raw = &data[sh.sh_offset as usize..(sh.sh_offset + sh.sh_size) as usize];
+                    for off in [0usize, 1, 2, raw.len() / 2] {
+                        let want: Option<&[u8]> = if raw.is_empty() || off > raw.len() { None } else {
+                            raw[off..].iter().position(|b| *b == 0).map(|k| &raw[off..off + k])
+                        };
+                        match (t.get_raw(off), want) {
+                            (Ok(g), Some(w)) => {
+                                if g != w || (!w.is_empty() && within(data, g) != Some(sh.sh_offset as usize + off)) {
+                                    return Err(format!("C03: string-table entry at {} of section {} is not the file's bytes at sh_offset+{}", off, i, off));
+                                }
+                            }
+                            (Err(_), None) => {}
+                            _ => return Err(format!("C03: string-table entry at {} of section {}: success/failure differs from the section's bytes", off, i)),
+                        }
+                    }
+                }
+            }
             // C20: typed views are refused on type mismatch, otherwise decode the raw bytes
             if sh.sh_type != abi::SHT_STRTAB {
                 match f.section_data_as_strtab(&sh) {
@@ -588,10 +608,42 @@ fn oracle_file(spec: &str, queries: &str, data: &[u8], ann: &str) -> V {
                             }
                         } else { true }
                     });
-                    if f.symbol_table().is_ok() && f.dynamic_symbol_table().is_ok() && f.dynamic().is_ok() && hash_ok
+                    // scoped as the property is: a PT_DYNAMIC segment is accompanied by a .dynamic section
+                    let has_pt_dyn = f.segments().map(|p| p.iter().any(|x| x.p_type == abi::PT_DYNAMIC)).unwrap_or(false);
+                    let scoped = count(abi::SHT_DYNAMIC) == 1 || !has_pt_dyn;
+                    if scoped && f.symbol_table().is_ok() && f.dynamic_symbol_table().is_ok() && f.dynamic().is_ok() && hash_ok
                         && shdrs.iter().all(|s| s.sh_flags & abi::SHF_COMPRESSED as u64 == 0) {
                         return Err("C20: every targeted accessor succeeds but find_common_data() fails".into());
                     }
+                }
+            }
+        }
+    }
+    // C20: without a section table, dynamic() is the PT_DYNAMIC segment's table and agrees with find_common_data()
+    if f.section_headers().is_none() {
+        if let Some(phdrs) = f.segments() {
+            let want: Option<Vec<String>> = match phdrs.iter().find(|p| p.p_type == abi::PT_DYNAMIC) {
+                Some(ph) => match f.segment_data(&ph) {
+                    Ok(seg) => Some(elf::dynamic::DynamicTable::new(f.ehdr.endianness, class, seg).iter().map(|x| x.show()).collect()),
+                    Err(_) => None,
+                },
+                None => Some(vec!["<none>".into()]),
+            };
+            if let Some(w) = want {
+                let got: Vec<String> = match f.dynamic() {
+                    Ok(Some(t)) => t.iter().map(|x| x.show()).collect(),
+                    Ok(None) => vec!["<none>".into()],
+                    Err(e) => vec![format!("err {}", show_err(&e))],
+                };
+                if got != w {
+                    return Err("C20: dynamic() without a section table is not the PT_DYNAMIC segment's table".into());
+                }
+                let via_common: Vec<String> = match f.find_common_data() {
+                    Ok(c) => match c.dynamic { Some(t) => t.iter().map(|x| x.show()).collect(), None => vec!["<none>".into()] },
+                    Err(e) => vec![format!("err {}", show_err(&e))],
+                };
+                if via_common != w {
+                    return Err("C20: find_common_data().dynamic differs from the PT_DYNAMIC segment's table".into());
                 }
             }
         }
